@@ -8,7 +8,7 @@ Tie to the source:
       coq/steady/GenSteadyFacts.v -- PropsC15.v pins them (C15_facts_pinned);
   (2) correspondence: the Gallina loop `SteadyLoop.ss_run gen_ss_facts` is evaluated inside Coq
       (vm_compute) on CLOSED-FORM sampled trajectories of linear networks (computed here with
-      mpmath, 50 digits, rounded to multiples of 2^-70) and compared EXACTLY (success/failure and
+      mpmath, 50 digits, rounded to 2^-32 of each pool's largest value) and compared EXACTLY (success/failure and
       reported time; NaN-row or value-row of the scan worker) with the real
       Simulator.simulate_to_steady_state / scan._steady_state_worker.  Cases whose decision could
       be flipped by LSODA's integration error (margin = 50 error units, worst observed 3.2) are
@@ -442,7 +442,7 @@ def solve_exact(A: list[list[Fraction]], rhs: list[Fraction]) -> list[Fraction]:
 # closed-form sampled trajectory (mpmath, independent of the implementation and of the Coq model)
 # ---------------------------------------------------------------------------------------
 
-QBITS = 70
+QBITS = 32  # samples are rounded to 2^-32 of the largest value of their pool (error units are >= 5e-5 of it)
 
 
 def closed_form_stepper(net: dict):
@@ -461,50 +461,52 @@ def closed_form_stepper(net: dict):
     return E, z
 
 
-def quantise(x) -> Fraction:  # noqa: ANN001
-    import mpmath as mp
-
-    return Fraction(int(mp.nint(x * 2**QBITS)), 2**QBITS)
-
-
 def trajectory(net: dict, tol: float, rel: bool, max_steps: int) -> dict:
-    """Samples y(0..), closed-form decision and its robustness against integration error."""
+    """Closed-form samples y(0..), the closed-form decision and its robustness against integration error.
+
+    The samples handed to the Coq model are ("den", "rows"): integers z with sample = z / den_i, den_i a power of two."""
     import mpmath as mp
 
     E, z = closed_form_stepper(net)
     d = net["d"]
-    samples = [[common.to_fraction(v) for v in net["y0"]]]  # sample 0 is exact
+    mps = [[z[i] for i in range(d)]]
     fl = [[float(v) for v in net["y0"]]]
+    run_max = [abs(v) for v in fl[0]]
+    for _ in range(max_steps):
+        z = E * z
+        mps.append([z[i] for i in range(d)])
+        fl.append([float(z[i]) for i in range(d)])
+        run_max = [max(run_max[i], abs(fl[-1][i])) for i in range(d)]
+        # stop early once the closed form is clearly below the threshold (cheap pre-check, decision re-done below)
+        dn, _, nf = step_measure(fl[-2], fl[-1], rel, len(fl) - 2, run_max, net)
+        if not nf and dn < tol * 0.5:
+            break
+    # extend by two samples so that a model that disagrees still has data to read
+    for _ in range(2):
+        z = E * z
+        mps.append([z[i] for i in range(d)])
+    # quantise: per pool, a power-of-two grid relative to its largest value
+    maxall = [max(abs(float(r[i])) for r in mps) for i in range(d)]
+    dens = []
+    for i in range(d):
+        e = QBITS - (math.frexp(maxall[i])[1] if maxall[i] > 0 else 0)
+        dens.append(2 ** max(e, 0))
+    rows = [[int(mp.nint(r[i] * dens[i])) for i in range(d)] for r in mps]
+    # decisions are taken on the quantised samples (what the model sees), sample 0 being the exact y0
+    qf = [[float(v) for v in net["y0"]]] + [[rows[n][i] / dens[i] for i in range(d)] for n in range(1, len(fl))]
+    maxabs = [max(abs(r[i]) for r in qf) for i in range(d)]
     decision = None
     borderline = False
-    maxabs = [abs(v) for v in fl[0]]
-    pending: list[tuple[int, float, list[float], list[float]]] = []
-    for n in range(max_steps):
-        z = E * z
-        row = [quantise(z[i]) for i in range(d)]
-        samples.append(row)
-        fr = [float(x) for x in row]
-        fl.append(fr)
-        maxabs = [max(maxabs[i], abs(fr[i])) for i in range(d)]
-        pending.append((n, 0.0, fl[n], fr))
-        # decide with the error units known so far (the maxima only grow; re-checked at the end)
-        dn, mg, nonfinite = step_measure(fl[n], fr, rel, n, maxabs, net)
+    for n in range(len(qf) - 1):
+        dn, mg, nonfinite = step_measure(qf[n], qf[n + 1], rel, n, maxabs, net)
         if nonfinite == "border" or (not nonfinite and abs(dn - tol) <= mg):
             borderline = True
-        if not nonfinite and dn < tol and decision is None:
+        if not nonfinite and dn < tol:
             decision = n
             break
-    if decision is not None:
-        # two more samples so that a model that disagrees still has data to read
-        for _ in range(2):
-            z = E * z
-            samples.append([quantise(z[i]) for i in range(d)])
-    # re-check margins with the final maxima
-    for n in range(len(fl) - 1):
-        dn, mg, nonfinite = step_measure(fl[n], fl[n + 1], rel, n, maxabs, net)
-        if nonfinite == "border" or (not nonfinite and abs(dn - tol) <= mg):
-            borderline = True
-    return {"samples": samples, "decision": decision, "borderline": borderline, "maxabs": maxabs, "float": fl}
+    n_needed = (decision + 2) if decision is not None else len(qf)
+    return {"den": dens, "rows": rows[: n_needed + 2], "decision": decision, "borderline": borderline, "maxabs": maxabs,
+            "float": qf, "n_samples": min(len(rows), n_needed + 2)}
 
 
 def err_units(maxabs: list[float], net: dict, m: float) -> list[float]:
@@ -706,7 +708,8 @@ def coq_case(idx: int, net: dict, tol: float, rel: bool, tr: dict, out: dict, fa
         c = common.to_fraction(net["reactions"][0][2]) * facts_step
         traj = f"TrajLin {cvec(net['y0'])} {clist([cq(c)])}"
     else:
-        traj = "TrajList " + clist(clist(cq(x) for x in row) for row in tr["samples"])
+        traj = ("TrajScaled " + clist(f"{int(x)}%positive" for x in tr["den"]) + " "
+                + clist(clist(common.cz(x) for x in row) for row in tr["rows"]))
     if out["kind"] == "Steady":
         obs = f"ObsSteady {cq(common.to_fraction(out['t']))}"
     elif out["kind"] == "NoSteady":
@@ -831,7 +834,7 @@ def check(run: Run) -> None:
         "samples follow the flow is validated only (closed-form comparison with margin)",
         "fact extractor harness/c15.py::extract_facts (fail-closed ast matcher; templates for reset, Simulator plumbing, scan worker)",
         "binary64 evaluation of norm/subtraction/division is modelled by exact rational arithmetic; overflow/underflow are outside the model",
-        "correspondence harness: mpmath closed form (50 digits, samples rounded to 2^-70), literal printer, coqc output parser",
+        "correspondence harness: mpmath closed form (50 digits, samples rounded to 2^-32 relative), literal printer, coqc output parser",
         "oracle constants: integration error per sample <= 320 * (1e-6*max|y_i| + 1e-12) (100 x worst observed)",
     ]
     step = int(facts["step"]) or STEP
@@ -889,7 +892,7 @@ def check(run: Run) -> None:
         if tr["borderline"]:
             stats["borderline_excluded"] += 1
             continue
-        long_list = net["kind"] != "accum1" and len(tr["samples"]) > 400
+        long_list = net["kind"] != "accum1" and tr["n_samples"] > 400
         if long_list:
             if n_long >= max_long_lists:
                 stats["long_list_skipped"] += 1
@@ -924,7 +927,7 @@ def check(run: Run) -> None:
     for ci, text in defs:
         cur.append((ci, text))
         cur_size += len(text)
-        if len(cur) >= 150 or cur_size > 900_000:
+        if len(cur) >= 120 or cur_size > 120_000:
             flush()
     flush()
     res = common.coq_eval_many(AREA, files, timeout_s=900)
